@@ -104,7 +104,7 @@ __CPROVER_ensures(__CPROVER_return_value == 0 ==> g_launched == 1)
 __CPROVER_ensures(__CPROVER_return_value == -1 ==> (g_launched == 0 && g_reset))
 ;
 //@loop EQ_start_consumer 1
-//@  __CPROVER_assigns(events, __t1, __t2, self->_events, g_tickets, g_sig_next, g_launched, g_submit_ret, g_reset)
+//@  __CPROVER_assigns(events, self->_events, g_tickets, g_sig_next, g_launched, g_submit_ret, g_reset)
 //@  __CPROVER_loop_invariant(g_launched == 0 && G_INV && !g_reset)
 //@end
 
